@@ -266,8 +266,11 @@ func c06Run(c *c06Case) {
 var sqlPKs = []string{strings.Repeat("a1", 32), strings.Repeat("b2", 32), strings.Repeat("c3", 32)}
 var sqlSigs = []string{strings.Repeat("5e", 64), strings.Repeat("6f", 64)}
 var sqlContents = []string{"", "hello", "a\x00b", "astral \U0001F600 \U00010348", "line sep ", "q\"b\\s/", "<&>", "é世界"}
-var sqlFreeVals = []string{"", "v1", "v2"}
-var sqlDVals = []string{"", "a", "b"}
+
+// (values longer than 256 bytes that agree on their first 256 bytes; a d value with a colon)
+var sqlLongVal = strings.Repeat("L", 300)
+var sqlFreeVals = []string{"", "v1", "v2", sqlLongVal + "a", sqlLongVal + "b"}
+var sqlDVals = []string{"", "a", "b", "x:y"}
 
 func sqlID(i int) string { return strings.Repeat(fmt.Sprintf("%02x", 0x10+i), 32) }
 
@@ -331,6 +334,9 @@ func (g *sqlGen) makePool(np int, functional bool) {
 			Content: common.Pick(r, sqlContents), Sig: common.Pick(r, sqlSigs)}
 		if r.Chance(2) {
 			e.TS = 4294967296 + int64(r.Intn(3)) // beyond uint32: the regular key truncates
+		}
+		if r.Chance(3) {
+			e.TS = -1 - int64(r.Intn(5)) // before the epoch
 		}
 		switch c := r.Intn(100); {
 		case c < 22:
